@@ -30,7 +30,12 @@ pub enum Pos {
     MergeTarget,
     MergeUsing,
     DdlQuerySource,
-    DdlUtilityTarget,
+    AlterTable,
+    DropTable,
+    CreateIndexOn,
+    GrantRevokeOn,
+    CommentOn,
+    AnalyzeTarget,
 }
 
 impl Pos {
@@ -52,7 +57,12 @@ impl Pos {
             Pos::MergeTarget => "merge_target",
             Pos::MergeUsing => "merge_using",
             Pos::DdlQuerySource => "ddl_query_source",
-            Pos::DdlUtilityTarget => "ddl_utility_target",
+            Pos::AlterTable => "alter_table",
+            Pos::DropTable => "drop_table",
+            Pos::CreateIndexOn => "create_index_on",
+            Pos::GrantRevokeOn => "grant_revoke_on",
+            Pos::CommentOn => "comment_on",
+            Pos::AnalyzeTarget => "analyze_target",
         }
     }
 }
@@ -68,6 +78,8 @@ pub trait Names {
     fn alias(&mut self, rng: &mut Rng) -> String;
     /// Name for an object that the statement creates (never a relation *reference*).
     fn fresh(&mut self, rng: &mut Rng) -> String;
+    /// Called before the i-th statement of a message is generated.
+    fn begin_statement(&mut self, _idx: usize) {}
 }
 
 pub struct PlainNames;
@@ -281,7 +293,8 @@ impl<'a> G<'a> {
                 }
                 6 => {
                     self.feat("only");
-                    (format!("ONLY {}", self.rel(ctx, Pos::FromOnly)), None)
+                    // `ONLY t` is its own position class wherever the query sits
+                    (format!("ONLY {}", self.rel_at(Pos::FromOnly)), None)
                 }
                 7 => {
                     self.feat("nofrom");
@@ -685,12 +698,9 @@ impl<'a> G<'a> {
                 format!("WITH {} AS ({}), {} AS ({}) SELECT * FROM {}", n0, body, n, dml, n0)
             }
             _ => {
-                let main = self.read_query(1, Ctx::Top, false);
-                if main.starts_with("WITH") || main.starts_with('(') {
-                    format!("WITH {} AS ({}) SELECT * FROM {}", n, dml, n)
-                } else {
-                    format!("WITH {} AS ({}) {}", n, dml, main)
-                }
+                // main query does not read the data-modifying CTE at all (it still runs)
+                let main = self.core(1, Ctx::Top, false, true, false);
+                format!("WITH {} AS ({}) {}", n, dml, main)
             }
         };
         Stmt { sql, read: false, dont_care: false, class: format!("cte_{}_returning_select", kind), coarse: "cte_dml" }
@@ -706,13 +716,13 @@ impl<'a> G<'a> {
                 let q = self.read_query(1, Ctx::In(Pos::DdlQuerySource), false);
                 (format!("CREATE TABLE {} AS {}", fresh, q), "ddl_create_table_as")
             }
-            4 => (format!("ALTER TABLE {} ADD COLUMN {} INT", self.rel_at(Pos::DdlUtilityTarget), fresh), "ddl_alter_table"),
-            5 => (format!("ALTER TABLE {} DROP COLUMN {}", self.rel_at(Pos::DdlUtilityTarget), self.col()), "ddl_alter_table"),
-            6 => (format!("ALTER TABLE {} RENAME TO {}", self.rel_at(Pos::DdlUtilityTarget), fresh), "ddl_alter_table"),
-            7 => (format!("DROP TABLE {}{}", if self.rng.chance(1, 2) { "IF EXISTS " } else { "" }, self.rel_at(Pos::DdlUtilityTarget)), "ddl_drop_table"),
+            4 => (format!("ALTER TABLE {} ADD COLUMN {} INT", self.rel_at(Pos::AlterTable), fresh), "ddl_alter_table"),
+            5 => (format!("ALTER TABLE {} DROP COLUMN {}", self.rel_at(Pos::AlterTable), self.col()), "ddl_alter_table"),
+            6 => (format!("ALTER TABLE {} RENAME TO {}", self.rel_at(Pos::AlterTable), fresh), "ddl_alter_table"),
+            7 => (format!("DROP TABLE {}{}", if self.rng.chance(1, 2) { "IF EXISTS " } else { "" }, self.rel_at(Pos::DropTable)), "ddl_drop_table"),
             8 => (format!("TRUNCATE {}{}", if self.rng.chance(1, 2) { "TABLE " } else { "" }, self.rel_at(Pos::Truncate)), "ddl_truncate"),
             9 => (format!("TRUNCATE {}, {}", self.rel_at(Pos::Truncate), self.rel_at(Pos::Truncate)), "ddl_truncate"),
-            10 => (format!("CREATE INDEX {} ON {} ({})", fresh, self.rel_at(Pos::DdlUtilityTarget), self.col()), "ddl_create_index"),
+            10 => (format!("CREATE INDEX {} ON {} ({})", fresh, self.rel_at(Pos::CreateIndexOn), self.col()), "ddl_create_index"),
             11 => (format!("DROP INDEX {}", fresh), "ddl_drop_index"),
             12 => {
                 let q = self.read_query(1, Ctx::In(Pos::DdlQuerySource), false);
@@ -731,8 +741,8 @@ impl<'a> G<'a> {
         let fresh = self.names.fresh(self.rng);
         let mut dont_care = false;
         let (sql, class): (String, &str) = match self.ch(30, 24) {
-            0 => (format!("GRANT SELECT ON {} TO {}", self.rel_at(Pos::DdlUtilityTarget), fresh), "util_grant"),
-            1 => (format!("REVOKE ALL ON {} FROM {}", self.rel_at(Pos::DdlUtilityTarget), fresh), "util_revoke"),
+            0 => (format!("GRANT SELECT ON {} TO {}", self.rel_at(Pos::GrantRevokeOn), fresh), "util_grant"),
+            1 => (format!("REVOKE ALL ON {} FROM {}", self.rel_at(Pos::GrantRevokeOn), fresh), "util_revoke"),
             2 => (format!("COPY {} TO STDOUT", self.rel_at(Pos::CopyTo)), "util_copy_to"),
             3 => (format!("COPY {} ({}, {}) TO STDOUT", self.rel_at(Pos::CopyTo), self.col(), self.col()), "util_copy_to"),
             4 => (format!("COPY {} FROM STDIN", self.rel_at(Pos::CopyFrom)), "util_copy_from"),
@@ -741,7 +751,7 @@ impl<'a> G<'a> {
                 let q = self.read_query(1, Ctx::In(Pos::Subquery), false);
                 (format!("COPY ({}) TO STDOUT", q), "util_copy_query_to")
             }
-            7 => (format!("COMMENT ON TABLE {} IS 'x'", self.rel_at(Pos::DdlUtilityTarget)), "util_comment_on"),
+            7 => (format!("COMMENT ON TABLE {} IS 'x'", self.rel_at(Pos::CommentOn)), "util_comment_on"),
             8 => (format!("CALL {}()", fresh), "util_call"),
             9 => (format!("SET {} TO 1", fresh), "util_set"),
             10 => (format!("SET LOCAL {} = 'v'", fresh), "util_set_local"),
@@ -771,7 +781,7 @@ impl<'a> G<'a> {
                 let (q, _) = self.dml_insert(false);
                 (format!("EXPLAIN ANALYZE {}", q), "util_explain_analyze_write")
             }
-            _ => (format!("ANALYZE {}", self.rel_at(Pos::DdlUtilityTarget)), "util_analyze"),
+            _ => (format!("ANALYZE {}", self.rel_at(Pos::AnalyzeTarget)), "util_analyze"),
         };
         Stmt { sql, read: false, dont_care, class: class.to_string(), coarse: "util" }
     }
@@ -887,7 +897,8 @@ pub fn message(rng: &mut Rng, names: &mut dyn Names) -> Message {
     };
     let mut g = G::new(rng, names);
     let mut stmts = Vec::new();
-    for _ in 0..n {
+    for i in 0..n {
+        g.names.begin_statement(i);
         let s = g.statement(None);
         stmts.push(s);
     }
